@@ -45,7 +45,8 @@ Proof.
   - destruct (exec_truncate ord d t c) as [[d' ev] r] eqn:E. cbn in *.
     destruct (exec_truncate_good _ _ _ _ _ _ _ I O E) as [_ G].
     split; [eapply inv_shrinks; eassumption|eapply ri_good; eassumption].
-  - destruct (exec_drop d t) as [[d' ev] r] eqn:E. cbn in *. eapply exec_drop_ok; eassumption.
+  - destruct (exec_drop d t) as [[d' ev] r] eqn:E. cbn in *.
+    destruct (exec_drop_ok _ _ _ _ _ I R E) as [_ H]. exact H.
   - destruct (exec_add_fk d t fk) as [[d' ev] r] eqn:E. cbn in *. eapply exec_add_fk_ok; eassumption.
 Qed.
 
